@@ -407,7 +407,7 @@ class Exec:
             body = V(b'CAPABILITY')
         elif cmd == 'Noop':
             body = V(b'NOOP')
-            if args[0]:
+            if args[0] == 'tagged':
                 self._tag = rng.choice([b'tag', b'a b "c" \\', b't\xc3\xa9g', b'x' * 70])
                 body += b' ' + S(self._tag)
         elif cmd == 'Logout':
@@ -433,7 +433,7 @@ class Exec:
         elif cmd == 'Check':
             body = V(b'CHECKSCRIPT') + b' ' + S(C[args[0]])
         elif cmd == 'HaveSpace':
-            size = rng.choice([2 ** 31 - 1, 2 ** 40, 10 ** 15]) if args[1] \
+            size = rng.choice([2 ** 31 - 1, 2 ** 40, 10 ** 15]) if args[1] == 'big' \
                 else rng.choice([0, 1, 100, 4096])
             body = V(b'HAVESPACE') + b' ' + S(N[args[0]]) + b' %d' % size
         else:
@@ -702,7 +702,7 @@ class Exec:
             out.append(Finding('drift', f'Code:{cmd}:{"/".join(res["code"]) or "-"}->{code or "-"}',
                                f'{label}: response code {code or "(none)"}, RFC 5804 '
                                f'asks for {"/".join(res["code"]) or "(none)"}', False))
-        if code == 'TAG' and args and args[0] is True:
+        if code == 'TAG' and args and args[0] == 'tagged':
             got = r.code_args[0][1] if r.code_args and r.code_args[0][0] == 's' else None
             if got != obs['tag']:
                 out.append(Finding('drift', 'Noop:tag', f'{label}: tag {got!r} != {obs["tag"]!r}', False))
@@ -823,8 +823,7 @@ def _parse_label(label):
     v = _label_cache.get(label)
     if v is None:
         name, args = tlc.parse_label(label)
-        v = (name, str(args[0]), [a if isinstance(a, bool) else str(a) for a in args[1:-1]],
-             jsonable(args[-1]))
+        v = (name, str(args[0]), [str(a) for a in args[1:-1]], jsonable(args[-1]))
         _label_cache[label] = v
     return v
 
@@ -860,7 +859,7 @@ def simulate(cfg_path: str, num: int, depth: int, seed: int):
     header regex ([^>]*) does not get past."""
     d = tlc._scratch('sim')
     try:
-        res = tlc.run_tlc('Sieve.tla', cfg_path, workers=1, timeout=1500, deadlock=False,
+        res = tlc.run_tlc('Sieve.tla', cfg_path, workers=1, timeout=600, deadlock=False,
                           extra=['-simulate', f'file={d}/tr,num={num}',
                                  '-depth', str(depth), '-seed', str(seed)])
         behaviours = []
@@ -955,7 +954,7 @@ SCENARIOS = [
     ['Put(c1,n1,s1', 'SetActive(c1,n1', 'Delete(c1,n1', 'Auth(c1,u1,badpw', 'Put(c1,n1,s1',
      'Auth(c1,u1,good', 'Put(c1,n2,s2', 'Put(c1,n1,s1', 'SetActive(c1,n2', 'SetActive(c1,n1',
      'List(c1', 'Rename(c1,n2,n1', 'Delete(c1,n2', 'Rename(c1,n1,n2', 'List(c1', 'Get(c1,n2',
-     'Put(c1,n2,s2', 'Get(c1,n2', 'List(c1', 'Delete(c1,n2', 'HaveSpace(c1,n1,FALSE',
+     'Put(c1,n2,s2', 'Get(c1,n2', 'List(c1', 'Delete(c1,n2', 'HaveSpace(c1,n1,small',
      'Put(c1,empty,s1', 'Get(c1,empty', 'SetActive(c1,empty', 'Delete(c1,n2', 'List(c1',
      'Logout(c1', 'Get(c1,n2', 'Auth(c1,u1,good', 'List(c1'],
 ]
@@ -965,8 +964,12 @@ def scenario_steps(graph, groups, prefixes, excluded) -> list:
     node = graph.inits[0]
     path = []
     for pre in prefixes:
-        cands = [(l, d) for l, d in graph.edges[node] if l.startswith(pre + ',[')]
-        cands = [e for e in cands if _parse_label(e[0])[3]['alt'] not in excluded]
+        want = pre.replace('(', ',').split(',')
+        cands = []
+        for l, d in graph.edges[node]:
+            cmd, conn, args, res = _parse_label(l)
+            if [cmd, conn] + args == want and res['alt'] not in excluded:
+                cands.append((l, d))
         if len(cands) != 1:
             raise tlc.TLCError(f'scenario step {pre}: {len(cands)} edges at node {node}')
         path.append(cands[0])
